@@ -119,8 +119,12 @@ def cases(draw, tier):
         return e
 
     exprs = [expr(3 if big else draw(st.integers(1, 3))) for _ in range(draw(st.integers(1, 3)))]
+    if decimal:
+        # plain date conditions awaited from many different (non-representable) clock values
+        exprs += [[draw(st.sampled_from(['time_ge', 'time_ge', 'time_eq'])), draw(st.integers(20, 60)) / 10]
+                  for _ in range(draw(st.integers(1, 2)))]
     waiters = []
-    for j in range(draw(st.integers(1, 4))):
+    for j in range(draw(st.integers(1, 4) if not decimal else st.integers(3, 6))):
         steps = []
         off = draw(st.sampled_from([0, 0, 0.25, 0.5, 1, 1.5, 2, 3])) if not decimal else draw(st.integers(0, 30)) / 10
         if off:
